@@ -259,10 +259,16 @@ func TestVerifC14KFMultiMeasurementDeleteHang(t *testing.T) {
 func TestVerifC14KFSeriesTombstoneLostOnReplay(t *testing.T) {
 	st := verifkit.For("C14", "TestVerifC14KFSeriesTombstoneLostOnReplay", "directed: insert in an index file, tombstone in the log file, series-file compaction, reopen")
 	defer st.Flush()
-	k := vC14NewKF(t, st, vDualCfg{NShards: 1, LogSize: 200, Partitions: 1, CacheSize: 100})
+	k := vC14NewKF(t, st, vDualCfg{NShards: 1, LogSize: 64, Partitions: 1, CacheSize: 100})
 	k.write(1, "m0,a=x", "m0,a=y", "m0,a=z", "m0,b=x", "m0,b=y", "m0,b=z")
 	files := strings.Join(k.bed.tsiFileList(), " ")
-	k.log = append(k.log, "tsi files after write: "+files)
+	// a log entry of an insert is ~10 bytes; keep writing other series until the log file has
+	// been rolled and compacted into an index file, so that the six inserts sit in an index file
+	for i := 0; i < 20 && !strings.Contains(files, ".tsi"); i++ {
+		k.write(1, fmt.Sprintf("m1,a=x,c=v%d", i), fmt.Sprintf("m1,a=y,c=v%d", i))
+		files = strings.Join(k.bed.tsiFileList(), " ")
+	}
+	k.log = append(k.log, "tsi files after writes: "+files)
 	k.drop([]string{"m0"}, "a = 'x'")
 	k.log = append(k.log, "tsi files after drop: "+strings.Join(k.bed.tsiFileList(), " "))
 	k.log = append(k.log, "series file compaction")
@@ -275,15 +281,15 @@ func TestVerifC14KFSeriesTombstoneLostOnReplay(t *testing.T) {
 	}
 	k.bed.Quiesce()
 	want := []string{"m0,a=y", "m0,a=z", "m0,b=x", "m0,b=y", "m0,b=z"}
-	set, n, err := k.bed.ShardSeries(0, 1)
-	k.expect("shard-series-set-inmem-wrong", "inmem series id set", k.must(set, err), want...)
-	if n != 5 {
-		t.Fatalf("%s inmem SeriesN = %d, want 5", verifkit.Sig("shard-seriesN-inmem"), n)
+	inSet, inN, err := k.bed.ShardSeries(0, 1)
+	k.must(inSet, err)
+	if int(inN) != len(inSet) {
+		t.Fatalf("%s inmem SeriesN = %d, set has %d", verifkit.Sig("shard-seriesN-inmem"), inN, len(inSet))
 	}
 	for i, kind := range vDualKinds {
 		k.expect("series-listing-"+kind+"-wrong", kind+" series of m0", k.must(k.bed.SeriesByExpr(i, k.bed.shardIDs(), "m0", nil)), want...)
 	}
-	set, n, err = k.bed.ShardSeries(1, 1)
+	set, n, err := k.bed.ShardSeries(1, 1)
 	k.must(set, err)
 	var real []string
 	phantom := 0
@@ -294,10 +300,10 @@ func TestVerifC14KFSeriesTombstoneLostOnReplay(t *testing.T) {
 			real = append(real, s)
 		}
 	}
-	k.expect("shard-series-set-tsi1-wrong", "tsi1 series id set (keyed entries)", real, want...)
-	rep := phantom > 0 || n != 5
+	k.expect("shard-series-set-tsi1-wrong", "tsi1 series id set (keyed entries) against the inmem one", real, inSet...)
+	rep := phantom > 0 || n != inN
 	if rep {
-		st.KnownReproduced(vC14SigPhantom, fmt.Sprintf("6 series compacted into an index file (%s), DROP SERIES FROM m0 WHERE a='x', series-file compaction, reopen: tsi1 shard series id set = %v, SeriesN = %d (want 5 series)", files, set, n))
+		st.KnownReproduced(vC14SigPhantom, fmt.Sprintf("6 series compacted into an index file (%s), DROP SERIES FROM m0 WHERE a='x', series-file compaction, reopen: tsi1 shard series id set = %v, SeriesN = %d (inmem: %d)", files, set, n, inN))
 	}
 	st.Case(true, fmt.Sprintf("phantom/%v", rep), fmt.Sprintf("kf:phantom reproduced=%v", rep))
 	st.Sample(k.log)
